@@ -87,6 +87,16 @@ check("C03", "tags are a last-writer-wins map; listing and paging exact", "explo
       "DESIGN.md §3 C03",
       [R("^TestC03$", 2000, 80000, steps=40)])
 
+check("C04", "only complete, well-formed manifests accepted; refusals change nothing", "exploration",
+      "rapid generator of valid manifests + structural/byte mutations; oracle = independent acceptance predicate + before/after snapshot equality (API battery + file tree)",
+      "Randomised search over manifest bodies (valid, truncated, non-object, missing/foreign/deleted/malformed references, contradictory media types), Content-Types, references and "
+      "?digest= values in empty and populated repositories of both stores; acceptance is compared with a predicate written from the property text, and every refusal is "
+      "bracketed by snapshots of all read endpoints of all repositories and of the directory tree.",
+      "Trusted: the acceptance predicate c04Predict (narrow reading of 'consistent with the body': header vs non-empty mediaType field); JSON null bodies and the "
+      "detection path (no Content-Type) are only checked in the 201 => valid direction.",
+      "DESIGN.md §3 C04",
+      [R("^TestC04$", 1500, 60000, steps=30)])
+
 NOT_APPLICABLE = {}
 
 # --------------------------------------------------------------------------- helpers
